@@ -277,6 +277,8 @@ def check_shown(S, site, rb, key, meter):
         S.count("ly_times_shown")
         if tuple(t) != tuple(meter):
             S.problem(site + ": shown time signature", list(meter), list(t), tags={"what": "time"})
+    if rb["late"]:
+        S.problem(site + ": position of \\key/\\time", "before the entries of the bar they belong to", "%d written after entries" % rb["late"])
 
 
 def run_ly_bar(case):
@@ -448,8 +450,6 @@ def check_measure(S, site, eb, m, eff):
             S.count("xml_tuplet_entries")
         if e["base"] < 1:
             S.count("xml_longa_breve_entries")
-    if not exp:
-        S.count("xml_empty_bars")
 
 
 def check_score(S, site, text, comp, exp_tracks):
@@ -519,6 +519,8 @@ def run_xml_bar(case):
     if bar is None:
         S.count("unreachable_bar_skipped")
         return
+    if not exp:
+        S.count("xml_empty_bars")
     text = export(S, "musicxml.from_Bar", MX.from_Bar, bar)
     if text is None:
         return
@@ -536,6 +538,7 @@ def run_xml_track(case):
     if t is None:
         S.count("unreachable_bar_skipped")
         return
+    S.count("xml_empty_bars", sum(1 for b in exp if not b["entries"]))
     text = export(S, "musicxml.from_Track", MX.from_Track, t)
     if text is None:
         return
@@ -551,6 +554,7 @@ def run_xml_comp(case):
     if c is None:
         S.count("unreachable_bar_skipped")
         return
+    S.count("xml_empty_bars", sum(1 for t in exp for b in t["bars"] if not b["entries"]))
     text = export(S, "musicxml.from_Composition", MX.from_Composition, c)
     if text is None:
         return
@@ -632,6 +636,27 @@ def key_meter_bars(key, flags=True):
                 continue
             for sk, st in (itertools.product([True, False], repeat=2) if flags else [(True, True)]):
                 yield bar_case(key, meter, ents, sk, st)
+
+
+def pitch_bars(name):
+    """one bar per octave 0..8 holding the single note `name`, and one bar holding all nine in turn"""
+    for o in range(0, 9):
+        yield {"key": "C", "meter": [4, 4], "showkey": True, "showtime": True, "entries": [[[[name, o]], "4"]]}
+    yield {"key": "C", "meter": [12, 4], "showkey": False, "showtime": True,
+           "entries": [[[[name, o]], "4"] for o in range(0, 9)]}
+
+
+def chord_bars(first):
+    """bars holding one chord: every subset of the note pool with 1..5 notes whose lowest-index member
+    is `first`, x three kinds of value; and the same chord twice around a rest"""
+    rest = NOTE_POOL[first + 1:]
+    for k in range(0, 5):
+        for comb in itertools.combinations(rest, k):
+            chord = [NOTE_POOL[first]] + list(comb)
+            for l in ("4", "8.", "4*3:2"):
+                yield {"key": "F", "meter": [4, 4], "showkey": True, "showtime": False, "entries": [[chord, l]]}
+            yield {"key": "F", "meter": [4, 4], "showkey": True, "showtime": False,
+                   "entries": [[chord, "4"], [None, "4"], [chord, "8"]]}
 
 
 def strip_flags(bc):
@@ -802,6 +827,8 @@ def explore(ctx):
         ctx.bound("ly_bar_content", "all sequences of <=%d entries over %d contents x %s in 4/4" % (cl, len(CONTENT_ORDER), cv))
         ctx.product("ly_bar", CONTENT_ORDER, lambda c: content_bars(c, cv, cl))
         ctx.product("ly_bar", P.KEYS30, key_meter_bars)
+        ctx.product("ly_bar", names, pitch_bars)
+        ctx.product("ly_bar", range(len(NOTE_POOL)), chord_bars)
     if ctx.want("ly_track"):
         zoo = zoo_bars()
         ctx.bound("track_zoo_bars", len(zoo))
@@ -830,10 +857,12 @@ def explore(ctx):
         if not q:
             ctx.product("xml_bar", VQ_PLUS, lambda l: (c for c in rhythm_bars(l, VQ_PLUS, 3) if len(c["entries"]) == 3))
         cl = ctx.pick(3, 4)
-        cv = ctx.pick(["4", "8*3:2"], ["4", "8*3:2", "8."])
+        cv = ["4", "8*3:2", "8."]
         ctx.bound("xml_bar_content", "all sequences of <=%d entries over %d contents x %s in 4/4" % (cl, len(CONTENT_ORDER), cv))
         ctx.product("xml_bar", CONTENT_ORDER, lambda c: content_bars(c, cv, cl))
         ctx.product("xml_bar", P.KEYS30, lambda k: key_meter_bars(k, flags=False))
+        ctx.product("xml_bar", names, pitch_bars)
+        ctx.product("xml_bar", range(len(NOTE_POOL)), chord_bars)
     if ctx.want("xml_track"):
         ctx.product("xml_track", [(None, 3), ("Instrument", 2), ("Piano", 2), ("Guitar", 2), ("Midi", 2)] if q else
                     [(i, 3) for i in (None, "Instrument", "Piano", "Guitar", "Midi")], gen_xml_track)
